@@ -152,7 +152,7 @@ def configs(tier):
                             blocks=(('cmp', (('s', 2, 'obj'),)), b1), fb=None))
     # T: values that are equal but of different type (0 / 0.0 / False ...) travelling through
     # function blocks into a consumer that tells them apart; local consistency oracle
-    for net in ('clamp', 'sum', 'sum3', 'notnot'):
+    for net in ('clamp', 'sum', 'sum3', 'notnot', 'cmpstart'):
         out.append(dict(typed=net))
     # R: a change ripples through n stages CBlock => (event) => SBlock within one burst while a
     # wide adder and the later stages are legitimately re-evaluated after every stage
@@ -504,6 +504,8 @@ def run_typed(cfg, acc):
     viol = []
     if net == 'notnot':
         return run_notnot(acc)
+    if net == 'cmpstart':
+        return run_cmpstart(acc)
     doms = {'clamp': [(-1, 0, 1, 0.0, True, -2.5)],
             'sum': [(0, 1, 2), (0, -1.0, 1.0, -2)],
             'sum3': [(0, 1), (0, -1.0), (0.0, 1, False)]}[net]
@@ -567,6 +569,51 @@ def run_typed(cfg, acc):
         acc.execs += 1
         if viol:
             break
+    return viol
+
+
+def run_cmpstart(acc):
+    """
+    Compare started at every value around its thresholds (incl. low == high, where the value
+    equal to the threshold is 'value >= high'), then walked through every other value.
+    """
+    viol = []
+    vals = (0, 2, 3, 3.5, 4, 5, 6)
+    for low, high in ((3, 3), (2, 5), (2, 4), (3.5, 3.5)):
+        for start in vals:
+            if low < high and start == (low + high) / 2:
+                continue        # exactly in the middle of the zone: the documentation does not say
+            with Sim() as sim:
+                src = edzed.Input('src', initdef=start)
+                cmp_ = edzed.Compare('cmp', low=low, high=high).connect(src)
+                res = []
+
+                async def driver():
+                    task = asyncio.create_task(sim.circuit.run_forever())
+                    await sim.circuit.wait_init()
+                    if start >= high:
+                        exp = True
+                    elif start < low:
+                        exp = False
+                    else:
+                        exp = (high - start) < (start - low)
+                    res.append((start, cmp_.output, exp))
+                    for v in vals + tuple(reversed(vals)):
+                        edzed.ExtEvent(src).send(v)
+                        await sim.loop.idle()
+                        exp = True if v >= high else False if v < low else exp
+                        res.append((v, cmp_.output, exp))
+                    await stop(sim.circuit)
+                    del task
+                sim.run(driver())
+            acc.execs += 1
+            acc.outcome(('cmpstart', low, high, start, tuple(r[1] for r in res)))
+            acc.state(('cmpstart', low, high, start))
+            bad = [r for r in res if r[1] is not r[2]]
+            if bad:
+                viol.append(('output-mismatch:cmp', f"Compare(low={low}, high={high}) started at {start}: "
+                             f"(input, output, expected) = {bad[0]} (whole walk: {res})"))
+                return viol
     return viol
 
 
